@@ -160,6 +160,7 @@ type Disk struct {
 	seq      int
 	hook     Hook
 	open     int // open file handles
+	inoOpen  map[*inode]int // open handles per inode (C13: unlinked files that still hold space)
 	metaOpen int
 	Hist     *History
 	// IDViolations collects segment-identity rule breaches seen online.
@@ -187,6 +188,48 @@ func (d *Disk) OpenHandles() (files, metas int) {
 var (
 	ErrInjected = errors.New("simfs: injected I/O error")
 )
+
+func (d *Disk) inoRef(ino *inode, delta int) {
+	if d.inoOpen == nil {
+		d.inoOpen = map[*inode]int{}
+	}
+	d.inoOpen[ino] += delta
+	if d.inoOpen[ino] <= 0 {
+		delete(d.inoOpen, ino)
+	}
+}
+
+// UnlinkedOpen returns how many open handles refer to files that no longer have a
+// name in the (volatile) directory, and the bytes those files hold: space that a real
+// filesystem cannot reclaim while the handles stay open.
+func (d *Disk) UnlinkedOpen() (handles int, bytes int) {
+	d.mu.Lock()
+	defer d.mu.Unlock()
+	linked := make(map[*inode]bool, len(d.files))
+	for _, ino := range d.files {
+		linked[ino] = true
+	}
+	for ino, n := range d.inoOpen {
+		if !linked[ino] {
+			handles += n
+			bytes += len(ino.vol)
+		}
+	}
+	return
+}
+
+// OpenPerName returns the number of open handles per linked file name.
+func (d *Disk) OpenPerName() map[string]int {
+	d.mu.Lock()
+	defer d.mu.Unlock()
+	out := map[string]int{}
+	for n, ino := range d.files {
+		if k := d.inoOpen[ino]; k > 0 {
+			out[n] = k
+		}
+	}
+	return out
+}
 
 func (d *Disk) pre(c Call) error {
 	d.NCalls[c.Kind]++
@@ -269,10 +312,12 @@ func (d *Disk) Create(dir, name string, size uint64) (types.WritableFile, error)
 	d.Hist.CreatedNames[name]++
 	d.checkCreateLocked(name)
 	d.open++
+	d.inoRef(ino, 1)
 	h := &handle{d: d, ino: ino, name: name, writable: true, created: true}
 	if err := d.post(c); err != nil {
 		// the file exists but the caller never sees the handle
 		d.open--
+		d.inoRef(ino, -1)
 		h.closed = true
 		return nil, err
 	}
@@ -338,9 +383,11 @@ func (d *Disk) openHandle(k Kind, name string, writable bool) (*handle, error) {
 		return nil, &os.PathError{Op: "open", Path: name, Err: os.ErrNotExist}
 	}
 	d.open++
+	d.inoRef(ino, 1)
 	h := &handle{d: d, ino: ino, name: name, writable: writable}
 	if err := d.post(c); err != nil {
 		d.open--
+		d.inoRef(ino, -1)
 		h.closed = true
 		return nil, err
 	}
@@ -488,6 +535,7 @@ func (h *handle) Close() error {
 	}
 	h.closed = true
 	d.open--
+	d.inoRef(h.ino, -1)
 	return d.post(c)
 }
 
